@@ -217,5 +217,13 @@ def main(argv):
             if o != want:
                 ctx.disagreement("Lean pool model differs from the implementation (client / connection per call, idle set, order of closes)",
                                  dict(case, impl=want[:300], model=o[:300]), theorem="C09_closed_conn_never_used")
+    # composed model PooledClient ∘ Client (Pymc/Model/PooledCall.lean): random histories with per-call scripts on the real PooledClient,
+    # compared call by call (result, inner client, socket used / held, bytes left unread, order of closes)
+    if ctx.lean.build_ok:
+        import pooledcall_diff
+        ncalls, bad = pooledcall_diff.differential(4000 if ctx.thorough else 600, rng, ctx.driver.batch)
+        ctx.count("composed-model-calls", ncalls)
+        for b in bad[:5]:
+            ctx.disagreement("composed Lean model PooledClient∘Client differs from the real PooledClient", b, theorem="C09_pooled_run_projection")
     ctx.assumptions = ["time is the patched pool clock (integer ticks); one call happens at one instant", "a connection = one successfully connected socket"]
     ctx.finish()
